@@ -562,6 +562,12 @@ def run(chk: Check):
         for mg, g in zip(m["margs"], r["marginals"]):
             if "error" in g:
                 errs.append(("marginal%s" % mg, g["error"]))
+        ryser = m["lossy_flag"] or m["ov"] not in (None, "1")
+        if m["steps"] and ryser and "ok" in r["table"] and len(r["table"]["ok"]) != len(m["queries"]):
+            chk.violation(KEY_D1, "fock_probabilities of a post-selected lossy / partially distinguishable state has %d entries for %d basis states (the cutoff is decremented twice and the active d is handed to get_postselected_fock_basis)" % (len(r["table"]["ok"]), len(m["queries"])),
+                          dict(describe(m), interface="table"))
+            for name in ("table", "table_map", "norm"):
+                r[name] = {"error": "skipped: reported under " + KEY_D1}
         for name, e in errs:
             ryser = m["lossy_flag"] or m["ov"] is not None
             if m["steps"] and ryser and name in ("table", "table_map", "norm") and (
@@ -687,14 +693,17 @@ Eval vm_compute in mismatches (fun '(s, x, r) => close (input_norm Q 0%%Q 1%%Q q
         neval += 1
         single = [g["ok"][0] for g in r["single"] if "ok" in g]
         w = describe(m)
+        ryser = m["lossy_flag"] or m["ov"] not in (None, "1")
+        d2_class = ryser and not m["real"] and (m["loss"] == "nonuniform" or (isinstance(m["ov"], tuple) and not m["ov"][1]))
+        kk = (lambda k: KEY_D2) if d2_class else (lambda k: k)
         if any((not finite(p)) or p < -1e-9 for p in single):
-            chk.violation("C05:get_particle_detection_probability:negative-or-nan", "single-outcome probability negative or not finite", w)
+            chk.violation(kk("C05:get_particle_detection_probability:negative-or-nan"), "single-outcome probability negative or not finite", w)
         if any("ok" in g and abs(g["ok"][1]) > 1e-9 for g in r["single"]):
             chk.violation("C05:get_particle_detection_probability:complex", "single-outcome probability has an imaginary part", w)
         tab = r["table"].get("ok")
         if tab is not None:
             if any((not finite(p)) or p < -1e-9 for p in tab):
-                chk.violation("C05:fock_probabilities:negative-or-nan", "table entry negative or not finite", w)
+                chk.violation(kk("C05:fock_probabilities:negative-or-nan"), "table entry negative or not finite", w)
             if len(tab) == len(single) and any(abs(a - b) > 1e-9 * (1 + abs(a)) for a, b in zip(tab, single)):
                 ryser = m["lossy_flag"] or m["ov"] is not None
                 key = KEY_D2 if ryser and (m["loss"] == "nonuniform" or isinstance(m["ov"], tuple)) and not m["real"] else "C05:fock_probabilities!=get_particle_detection_probability"
@@ -702,9 +711,9 @@ Eval vm_compute in mismatches (fun '(s, x, r) => close (input_norm Q 0%%Q 1%%Q q
             consistent = len(tab) != len(single) or all(abs(a - b) <= 1e-9 * (1 + abs(a)) for a, b in zip(tab, single))
             total = sum(tab) if consistent else sum(single)  # an inconsistent table is reported above
             if not m["steps"] and m["cutoff"] > sum(m["s"]) and abs(total - 1.0) > 1e-9:
-                chk.violation("C05:fock_probabilities:sum!=1", "table without post-selection sums to %r" % total, w)
+                chk.violation(kk("C05:fock_probabilities:sum!=1"), "table without post-selection sums to %r" % total, w)
             if total > 1 + 1e-9:
-                chk.violation("C05:fock_probabilities:sum>1", "table sums to %r" % total, w)
+                chk.violation(kk("C05:fock_probabilities:sum>1"), "table sums to %r" % total, w)
             if "ok" in r["norm"] and m["steps"] and abs(r["norm"]["ok"][0] - sum(tab)) > 1e-9:
                 chk.violation("C05:norm!=sum(table)", "norm of a post-selected state is not the sum of the table", w)
             if "ok" in r["table_map"]:
